@@ -1,4 +1,5 @@
 import RlModel.Lemmas.Enc
+import RlModel.Lemmas.EncSkip
 import RlModel.Gen.Consts
 /-!
 # C06 — column encodings round-trip every value exactly
@@ -345,13 +346,145 @@ example : ∃ blocks, blockInfos { kind := .fixed 4, nullable := true, enc := .p
     (by decide) (.inl rfl) (.inl rfl) (by decide) _
     (by intro op hop; simp at hop; rcases hop with rfl | rfl <;> simp [ScanOp])
 
-/-- FULL statement of the read side of C06 (kept visible; NOT proved — `skip` and start rows > 0 are
-outside `iter_refines_slice_scan` — and no longer refuted): for every nullable column, every start
-row and every read program, each returned (row_id, batch) is the slice of the input at row_id. -/
+/-- **Reads refine slices — ALL read programs, any start row** (blocks level).  Invariant `GoodX` over
+arbitrary sequences of `next_batch(Some k≥1)` / `next_batch(None)` / hint-bounded batches / `skip(n)` /
+hint-bounded skips / `fetch_hint` / `fetch_current_row_id`: batches are the slices at the logical
+position, `skip(n)` advances it by exactly `n` — inside a block, across any number of blocks of ANY row
+counts (`skipBlocks_spec`: the `while cnt > 0` loop subtracts each block's OWN row count), past the end,
+and again on top of the fake iterator a previous skip left behind (`skipFake_spec`); the block is
+reloaded at the right row by the next read (`unfake_good`). -/
+theorem iter_refines_slice_all (blocks : List BlockInfo) (dflt : Bytes) (hwf : WfBlocks blocks 0)
+    (ops : List IterOp) (hops : ∀ op ∈ ops, ReadOp op) (c : ColIter) (hg : GoodX blocks dflt c) :
+    SpecFull (cellsOf blocks) c.rowId ops (runOps c ops) :=
+  full_spec blocks dflt hwf ops hops c hg
+
+/-- End to end, any start row: build a column (any kind / block size / encoding, nullable or not),
+decode it, create the iterator at ANY row `start ≤ xs.length` (`block_of_row`, `new_good_at`) and run
+ANY read program: the outputs follow `SpecFull` over the written cells. -/
+theorem iter_refines_slice_full (o : ColOpts) (bt : Nat) (hbt : bt < BLOCK_TYPE_COUNT) (xs : List Cell)
+    (hk : KindOk o.kind xs) (hlen : xs.length < 2 ^ 29) (heq : o.enc = .plain ∨ EqSound o.eq)
+    (hn : o.nullable = true ∨ o.enc = .dict ∨ ∀ c ∈ xs, c ≠ none)
+    (hne : xs ≠ []) (start : Nat) (hstart : start ≤ xs.length)
+    (ops : List IterOp) (hops : ∀ op ∈ ops, ReadOp op) :
+    ∃ blocks, blockInfos o (buildColumn o bt xs).1 (buildColumn o bt xs).2 = some blocks
+      ∧ SpecFull xs start ops (runOps (ColIter.new blocks (defaultItem o.kind) start) ops) := by
+  obtain ⟨h1, h2, h3⟩ := column_roundtrip o bt hbt xs hk hlen heq
+  refine ⟨_, h1, ?_⟩
+  have hne' : infosOf o (cut o xs) 0 ≠ [] := by
+    intro h0
+    have := congrArg (fun l => l.flatMap (·.cells)) h0
+    simp only [h2, List.flatMap_nil] at this
+    cases xs with
+    | nil => exact hne rfl
+    | cons x rest => simp at this
+  have hx : cellsOf (infosOf o (cut o xs) 0) = xs := by
+    show (infosOf o (cut o xs) 0).flatMap (·.cells) = xs
+    rw [h2, map_storedOf_id o xs hn]
+  have hrows : rowsOf (infosOf o (cut o xs) 0) = xs.length := by
+    show (cellsOf (infosOf o (cut o xs) 0)).length = xs.length
+    rw [hx]
+  obtain ⟨hg, hr0⟩ := new_good_at _ (defaultItem o.kind) h3 hne' start (by omega)
+  have := iter_refines_slice_all _ _ h3 ops hops _ (.inl hg)
+  rw [hr0, hx] at this
+  exact this
+
+/-- every batch of a run that follows `SpecFull` is the slice of the written cells at its row id -/
+theorem specFull_batches (xs : List Cell) (ops : List IterOp) :
+    ∀ (p : Nat) (outs : List IterOut), SpecFull xs p ops outs → ∀ out ∈ outs, batchIsSlice xs out = true := by
+  induction ops with
+  | nil => intro p outs h out hout; simp only [SpecFull] at h; subst h; simp at hout
+  | cons op ops ih =>
+    intro p outs h out hout
+    cases op with
+    | next e =>
+      simp only [SpecFull] at h
+      obtain ⟨o1, rest, rfl, h⟩ := h
+      rcases h with ⟨cells, rfl, hc, _, _, hr⟩ | ⟨rfl, _, hr⟩
+      · rcases List.mem_cons.mp hout with rfl | hm
+        · simp only [batchIsSlice, beq_iff_eq]; exact hc
+        · exact ih _ _ hr out hm
+      · rcases List.mem_cons.mp hout with rfl | hm
+        · rfl
+        · exact ih _ _ hr out hm
+    | nextHinted k =>
+      simp only [SpecFull] at h
+      obtain ⟨o1, rest, rfl, h⟩ := h
+      rcases h with ⟨cells, rfl, hc, _, _, hr⟩ | ⟨rfl, _, hr⟩
+      · rcases List.mem_cons.mp hout with rfl | hm
+        · simp only [batchIsSlice, beq_iff_eq]; exact hc
+        · exact ih _ _ hr out hm
+      · rcases List.mem_cons.mp hout with rfl | hm
+        · rfl
+        · exact ih _ _ hr out hm
+    | hint =>
+      simp only [SpecFull] at h
+      obtain ⟨hh, hf, rest, rfl, hr⟩ := h
+      rcases List.mem_cons.mp hout with rfl | hm
+      · rfl
+      · exact ih _ _ hr out hm
+    | rowId =>
+      simp only [SpecFull] at h
+      obtain ⟨rest, rfl, hr⟩ := h
+      rcases List.mem_cons.mp hout with rfl | hm
+      · rfl
+      · exact ih _ _ hr out hm
+    | skip n =>
+      simp only [SpecFull] at h
+      rcases h with hr | ⟨_, hr⟩
+      · exact ih _ _ hr out hout
+      · exact ih _ _ hr out hout
+    | skipHinted n =>
+      simp only [SpecFull] at h
+      obtain ⟨k, rest, rfl, _, h⟩ := h
+      rcases List.mem_cons.mp hout with rfl | hm
+      · rfl
+      · rcases h with hr | ⟨_, hr⟩
+        · exact ih _ _ hr out hm
+        · exact ih _ _ hr out hm
+
+/-- FULL statement of the read side of C06: for every column in the input domain of the builders
+(`KindOk`, < 2^29 rows, run/key equality that is the identity, NULL only where the encoding can hold
+it), every start row ≤ the row count and every read program the iterator accepts (`ReadOp`), each
+returned (row_id, batch) is the slice of the input at row_id. -/
 def IterRefinesSliceFull : Prop :=
   ∀ (o : ColOpts) (bt : Nat) (xs : List Cell) (start : Nat) (ops : List IterOp) (outs : List IterOut),
-    o.nullable = true → start ≤ xs.length →
+    bt < BLOCK_TYPE_COUNT → KindOk o.kind xs → xs.length < 2 ^ 29 → (o.enc = .plain ∨ EqSound o.eq) →
+    (o.nullable = true ∨ o.enc = .dict ∨ ∀ c ∈ xs, c ≠ none) → xs ≠ [] → start ≤ xs.length →
+    (∀ op ∈ ops, ReadOp op) →
     readColumn o bt xs start ops = some outs → ∀ out ∈ outs, batchIsSlice xs out = true
+
+/-- **`IterRefinesSliceFull` holds** (it was refuted by `nullable_cross_block_witness` until the
+round-5 repair, and open for `skip` / start rows > 0 until round 6). -/
+theorem iter_refines_slice_full_holds : IterRefinesSliceFull := by
+  intro o bt xs start ops outs hbt hk hlen heq hn hne hstart hops hread out hout
+  obtain ⟨blocks, h1, h2⟩ := iter_refines_slice_full o bt hbt xs hk hlen heq hn hne start hstart ops hops
+  simp only [readColumn, h1, Option.map_some] at hread
+  injection hread with hread
+  subst hread
+  exact specFull_batches xs ops start _ h2 out hout
+
+/-- the hypotheses are satisfiable, on a column whose blocks have DIFFERENT row counts (3, 2, 3, 1: varchar
+items of different lengths, block size 40), read from start row 1 with a skip over the rest of the first
+block, the whole second block and into the third, a batch crossing into the fourth block, and a skip on
+top of the fake iterator -/
+example : ∃ blocks, blockInfos { kind := .blob, nullable := true, enc := .plain, blockSize := 40 }
+      (buildColumn { kind := .blob, nullable := true, enc := .plain, blockSize := 40 } 3
+        [some [1], some [2], some [3], some [4,4,4,4,4,4,4,4,4,4,4,4], none, some [6], some [7,7,7,7,7,7,7,7,7], some [8], some [9]]).1
+      (buildColumn { kind := .blob, nullable := true, enc := .plain, blockSize := 40 } 3
+        [some [1], some [2], some [3], some [4,4,4,4,4,4,4,4,4,4,4,4], none, some [6], some [7,7,7,7,7,7,7,7,7], some [8], some [9]]).2
+        = some blocks
+    ∧ SpecFull [some [1], some [2], some [3], some [4,4,4,4,4,4,4,4,4,4,4,4], none, some [6], some [7,7,7,7,7,7,7,7,7], some [8], some [9]]
+        1 [.skip 5, .next (some 2), .skip 1, .skip 0, .rowId, .next none]
+        (runOps (ColIter.new blocks (defaultItem .blob) 1) [.skip 5, .next (some 2), .skip 1, .skip 0, .rowId, .next none]) :=
+  iter_refines_slice_full _ 3 (by decide) _ (by show BlobOk _; unfold BlobOk; decide)
+    (by decide) (.inl rfl) (.inl rfl) (by decide) 1 (by decide) _
+    (by intro op hop; simp at hop; rcases hop with rfl | rfl | rfl | rfl | rfl | rfl <;> simp [ReadOp])
+
+/-- what the model (and the implementation: the same request is in corpus/C06) return on it -/
+example : readColumn { kind := .blob, nullable := true, enc := .plain, blockSize := 40 } 3
+    [some [1], some [2], some [3], some [4,4,4,4,4,4,4,4,4,4,4,4], none, some [6], some [7,7,7,7,7,7,7,7,7], some [8], some [9]]
+    1 [.skip 5, .next (some 2), .skip 1, .skip 0, .rowId, .next none]
+    = some [.batch 6 [some [7,7,7,7,7,7,7,7,7], some [8]], .rowId 9, .none] := by decide +kernel
 
 /-- REGRESSION (was `nullable_cross_block_witness`, the refutation of `IterRefinesSliceFull`): on a plain
 nullable column a batch that spans two blocks comes back complete, under each row's own validity.
